@@ -34,6 +34,12 @@ Theorem C15_resend : forall (C : Type) job s n c good, clear C (snd_ C s) = true
     to_fw C s' = to_fw C s ++ [{| fpay := PJob n c; fgood := good |}] /\ resendfrom C (snd_ C s') = n + 1.
 Proof. exact resend_served. Qed.
 
+(* WINDOW: frames on the wire + replies on their way + the sender's clear flag never exceed 1 + the number of rejections so
+   far: stop-and-wait on a clean link, one line further ahead per rejection (each is answered by Resend AND ok) *)
+Theorem C15_window : forall (C : Type) job boot g ls s rej, run_rej C job ls (init C boot g) 0 = Some (s, rej) ->
+  (length (to_fw C s) <= pot C s /\ pot C s <= 1 + rej)%nat.
+Proof. exact window. Qed.
+
 (* COMPLETENESS on a clean link, for every interleaving (arbitrary firmware latency) and boot state *)
 Theorem C15_complete_clean : forall (C : Type) job boot ls s, 0 <= boot -> Forall clean_label ls ->
   run C job ls (init C boot true) = Some s -> quiescent C s -> accepted C (fw C s) = cmds_of C job.
